@@ -346,6 +346,11 @@ func ParseResponse(b []byte, reqMethod string, eof bool) (m *Message, n int, err
 	if err != nil {
 		return nil, 0, err
 	}
+	if kind == "chunked" && m.Proto != "HTTP/1.1" {
+		// RFC 7230 3.3.1: a transfer coding must not be sent in an HTTP/1.0 message; a 1.0
+		// recipient would read the chunk framing as body bytes
+		return nil, 0, malformed("Transfer-Encoding in a %s response", m.Proto)
+	}
 	m.Framing = kind
 	switch kind {
 	case "length":
